@@ -225,6 +225,17 @@ def pure? (cmd : String) (args : List (List Char)) : Option String :=
         s!"ok {p e.b1 nf} {p e.e1 nf} {p e.b2 nt} {p e.e2 nt} | {back}"
       | _, _, _, _, _ => "err")
     | _, _ => "bad-op")
+  | "conv.edge", [o1, n1, b1, e1, o2, n2, b2, e2, c] =>
+    some (match o1, o2 with
+    | [c1], [c2] =>
+      (match Orient.ofChar? c1, Orient.ofChar? c2, natOf? n1, natOf? b1, natOf? e1, natOf? n2, natOf? b2, natOf? e2, Cigar.parse c with
+      | some x, some y, some n1, some b1, some e1, some n2, some b2, some e2, some cg =>
+        (match Conv.gfa1OfEdge ⟨"A", x, "B", y, b1, e1, b2, e2, cg⟩ n1 n2 with
+         | some (t, l, pos) => "ok " ++ (match t with | .L => "L" | .C => "C" | .I => "I") ++ " " ++ printLink l ++
+             (match t with | .C => s!" pos={pos}" | _ => "")
+         | none => "none")
+      | _, _, _, _, _, _, _, _, _ => "err")
+    | _, _ => "bad-op")
   | "py.decode", [dt, q] =>
     some (match dt with
     | [c] => (match Py.decodeTag c q with | .ok _ => "ok" | .gerr _ => "gerr" | .foreign e => "foreign " ++ e)
